@@ -198,6 +198,11 @@ func (encryptor *PreparedStatementsQuery) onExecute(ctx context.Context, parseRe
 func (encryptor *PreparedStatementsQuery) onDeallocate(ctx context.Context, parseResult *pg_query.ParseResult) (postgresql.OnQueryObject, bool, error) {
 	var preparedStatementName = parseResult.Stmts[0].Stmt.GetDeallocateStmt().GetName()
 
+	// DEALLOCATE ALL carries no name: the database drops every named prepared statement of the session
+	if preparedStatementName == "" {
+		return nil, false, encryptor.registry.DeleteNamedStatements()
+	}
+
 	if _, err := encryptor.registry.StatementByName(preparedStatementName); err != nil {
 		logrus.WithField(logging.FieldKeyEventCode, logging.EventCodeErrorGeneral).
 			WithError(err).Errorln("PreparedStatement not present in registry")
